@@ -206,6 +206,7 @@ func (w *world) obsErrs() M {
 		func() {
 			defer func() {
 				if r := recover(); r != nil {
+					mustBeLibrary(r, "ErrorContainer.Errors")
 					p = fmt.Sprint(r)
 				}
 			}()
